@@ -137,3 +137,18 @@ CHECKS["C07"] = dict(
                "the property itself.",
     design_ref="DESIGN.md 3/C07",
 )
+
+CHECKS["C05"] = dict(
+    category="other",
+    technique="trail/collect pairing and counter path rules over enumerated paths; mode presence rule; facade wrapper "
+              "rule; dataclass-field-order vs positional-construction rule for LoadError.input_value",
+    text="Decides the structural part of error localisation for every container closure: each element application is "
+         "protected by handlers that annotate THAT element's position (counter incremented exactly once on every "
+         "continuing path, dict keys marked with ItemKey), ALL mode collects every caught error exactly once, never "
+         "leaves the loop early and raises whenever something was collected, FIRST mode annotates and re-raises, "
+         "DISABLE closures never touch trails, the facade renders once, and every LoadError construction binds the "
+         "datum to input_value. Thorough tier adds the crown-path trails of emitted model loaders.",
+    level_note="Trusted: Python ast, mode dispatch evaluator. That following the trail reaches the value needs an "
+               "input and is not decided.",
+    design_ref="DESIGN.md 3/C05",
+)
